@@ -87,6 +87,9 @@ class WithDecoratedMethods(ABC, Generic[E], GenericMixin):
             if attribute_name.startswith('__'):
                 continue
 
+            if isinstance(getattr(type(self), attribute_name, None), property):
+                continue  # do not evaluate properties
+
             attribute = getattr(self, attribute_name)
 
             for decorator_type in decorator_types:  # type: ignore
